@@ -148,6 +148,26 @@ def site_cases(ev, ctx, l, allow_multi=False, depth=0):
     out = {}
     for (bb, si, kind, payload) in defs:
         base = list(block_facts(ev, ctx, bb))
+        # a definition in a block where several branches meet (`a || b => return false`): one case per incoming edge, each
+        # with what is known on that edge
+        base_alts = None
+        if kind == "assign":
+            preds = [p for p in body.preds().get(bb, []) if not body.blocks[p]["cleanup"]]
+            back = set(body.back_edges())
+            if len(preds) > 1 and not any((p, bb) in back for p in preds):
+                base_alts = []
+                for p in preds:
+                    fs_p = list(block_facts(ev, ctx, p))
+                    tp = body.term(p)
+                    if tp["k"] == "switch":
+                        listed = [v for v, _ in tp["targets"]]
+                        vals = [v for v, tb in tp["targets"] if tb == bb]
+                        is_other = (bb == tp["otherwise"])
+                        if not (is_other and vals):
+                            for f in switch_facts(ev, ctx, p, vals, is_other, listed):
+                                if f not in fs_p:
+                                    fs_p.append(f)
+                    base_alts.append(fs_p)
         sub = None
         if kind == "assign":
             rv = payload
@@ -172,6 +192,23 @@ def site_cases(ev, ctx, l, allow_multi=False, depth=0):
                     sub = local_cases(ev, ctx, pl, False, depth + 1)
                     if sub is not None:
                         sub = [({"Some": "Continue", "None": "Break"}.get(K, K), fs, None) for (K, fs, v) in sub]
+            if sub is None and model in ("bool::then_some", "bool::then") and len(payload["args"]) == 2:
+                # Some(v) exactly when the condition holds: split by where the condition got its value
+                pl = _plain_local(payload["args"][0])
+                csub = local_cases(ev, ctx, pl, False, depth + 1) if pl is not None else None
+                if csub is None:
+                    csub = term_cases(ev.operand(ctx, payload["args"][0]))
+                vcall = ev.call(ctx, bb, payload)
+                if model == "bool::then_some":
+                    some_v = ("agg", "std::option::Option::Some", (ev.operand(ctx, payload["args"][1]),))
+                else:
+                    some_v = ("agg", "std::option::Option::Some", (ev.payload(ctx, vcall),))
+                sub = []
+                for (K, fs, v) in csub:
+                    if K is True:
+                        sub.append(("Some", fs, some_v))
+                    elif K is False:
+                        sub.append(("None", fs, vcall))
             if sub is None and model == "Option::filter" and len(payload["args"]) == 2:
                 # Some(x) exactly when the receiver is Some(x) and the predicate holds for x
                 recv = ev.operand(ctx, payload["args"][0])
@@ -191,8 +228,9 @@ def site_cases(ev, ctx, l, allow_multi=False, depth=0):
         else:
             return None
         lst = out.setdefault(bb, [])
-        for (K, fs, v) in sub:
-            lst.append((K, base + [f for f in fs if f not in base], v))
+        for base_ in (base_alts or [base]):
+            for (K, fs, v) in sub:
+                lst.append((K, base_ + [f for f in fs if f not in base_], v))
     return out
 
 
